@@ -279,6 +279,26 @@ def case_unit(rng, cid):
     return RCase("C01", code, "unit" + ("/mod" if inmod else "/fn") + ("/async" if asy else ""))
 
 
+def case_fragment(rng, cid):
+    """C02: the body of an entraited fn written by macro_rules!, with `$e:expr` fragments at its top level, must keep its meaning
+    (the invisible grouping of the fragment is lost if the macro takes the body apart and re-collects it)"""
+    a, b = rng.choice([(1, 4), (2, 3), (7, 1)])
+    op, k = rng.choice([("*", 2), ("*", 3), ("-", 10)])
+    want = {"*": (a + b) * k, "-": (a + b) - k}[op] if op == "*" else (a + b) - k
+    neg = rng.random() < 0.5
+    if neg:
+        body = "{ -$base %s %d }" % (op, k)
+        want = {"*": -(a + b) * k, "-": -(a + b) - k}[op]
+    else:
+        body = "{ $base %s %d }" % (op, k)
+    nd = rng.random() < 0.5
+    dep = "" if nd else "deps: &impl A"
+    code = ("pub mod k%d { use super::*;\nmacro_rules! mk { ($base:expr) => { #[entrait(pub Tr%s)] pub fn f(%s) -> i64 %s } }\nmk!(%d + %d);\n"
+            "pub fn run() { let app = Impl::new(App { tag: 7 }); let r0 = f(%s); let r1 = app.f(); report(%d, \"C02\", r0 == %d && r1 == %d, format!(\"{} {} want %d\", r0, r1)); }\n}") % (
+        cid, ", no_deps" if nd else "", dep, body, a, b, "" if nd else "&app", cid, want, want, want)
+    return RCase("C02", code, "fragment" + ("/nodeps" if nd else ""))
+
+
 def build_cases(seed, tier):
     rng = random.Random(seed * 211 + 3)
     k = 5 if tier == "thorough" else 1
@@ -293,6 +313,8 @@ def build_cases(seed, tier):
         cases.append(case_inversion(rng, len(cases)))
     for _ in range(24 * k):
         cases.append(case_unit(rng, len(cases)))
+    for _ in range(8 * k):
+        cases.append(case_fragment(rng, len(cases)))
     for i, c in enumerate(cases):
         c.cid = i
     return cases
